@@ -138,7 +138,12 @@ func c08Shapes(r *rand.Rand, element, food string) []c08Shape {
 		s("lint", "food.yaml"), s("lint", "log.yaml"), s("lint", "--silent", "log.yaml"), s("lint"), s("lint", "nonexistent"), s("lint", "."),
 		l1("gen", "man"), l1("gen", "markdown"), l1("gen"), l1("help"), l1("bogus"), l1("reg", "--bogus-flag"), l1("report"), l1("csv"), l1("report", "bogus"), l1("--help"), l1("--version"), l1("reg", "--help"), l1(),
 	}
-	// global flag variations prepended at random by the caller
+	// flag values derived from what the files contain: case variants, fragments, padded, recipe names
+	variants := []string{strings.ToUpper(element), strings.ToLower(element), strings.Title(element), element + " ", " " + element, element + "/", element[:(len(element)+1)/2], food, strings.ToUpper(food), "unknown-" + element}
+	v := variants[r.Intn(len(variants))]
+	shapes = append(shapes,
+		s("reg", "-s", v), s("reg", "-s", v, "--csv"), s("reg", "-s", v, "-g"), s("bal", "-s", v), s("bal", "-s", v, "-c"), s("report", "element-total", v), s("reg", "-f", v),
+		s("reg", "-s", v), s("bal", "-s", v), s("reg", "-s", v, "--totals-only"), s("summary", v))
 	return shapes
 }
 
@@ -153,7 +158,7 @@ var c08Globals = [][]string{
 	{"-d", "."}, {"-l", "."}, {"-d", "nonexistent"}, {"-l", "nonexistent"}, {"-d", "log.yaml", "-l", "food.yaml"}, {"-d", ""}, {"-l", ""},
 }
 
-var frameRe = regexp.MustCompile(`github\.com/aquilax/hranoprovod-cli[^\s(]*/([A-Za-z0-9_]+(\.[A-Za-z0-9_*()]+)+)`)
+var frameRe = regexp.MustCompile(`github\.com/aquilax/hranoprovod-cli[^\s(]*/([A-Za-z0-9_]+(\.\(\*[A-Za-z0-9_]+\)|\.[A-Za-z0-9_]+)+)`)
 
 func crashSite(stack string) string {
 	for _, m := range frameRe.FindAllStringSubmatch(stack, -1) {
